@@ -79,7 +79,7 @@ def gen_leaf(rng, kind, small=False):
         elif r < 0.5:
             lo, hi = rng.choice([(0.05, 0.07), (0.0, 0.3), (-0.35, 0.35), (1.0, 1.5), (0.26, 0.74)])   # not grid aligned
         elif r < 0.6:
-            k = rng.choice([2 ** 31, 2 ** 45, 2 ** 53])         # far from zero: grid law region / beyond
+            k = rng.choice([2 ** 31, 2 ** 45, 2 ** 53, 2 ** 55 + 2 ** 20, 3 * 2 ** 58, 2 ** 62])   # far from zero: grid law region / beyond
             lo, hi = sorted([-k * scale * rng.choice([0, 1]), k * scale])
         else:
             a, b = sorted(rng.sample([0, 1, -1, 5, -5, 10, 100, -100, 1000, 2 ** 24, -2 ** 24], 2))
